@@ -22,6 +22,8 @@ def run_property(pid: str, tier: str, replay: str | None = None) -> int:
         program = Program()
         mod = importlib.import_module(f"mverif.props.{pid.lower()}")
         mod.run(report, program, tier)
+        if tier == "thorough" and not replay and not os.environ.get("MVERIF_REPO"):
+            report.extra["selftest"] = run_selftest(pid)
         if replay:
             want = json.loads(open(replay).read())
             for r in report.rules:
@@ -37,6 +39,32 @@ def run_property(pid: str, tier: str, replay: str | None = None) -> int:
         traceback.print_exc()
         print(f"ANALYSIS-ERROR property={pid} internal error in the analyser (see traceback)")
         return 2
+
+
+def run_selftest(pid: str) -> dict:
+    """Thorough tier: apply this property's mutation corpus (mutants, behaviour-preserving twins
+    and confirmed seeded changes) to scratch copies and record what the checker did with them.
+    The counts go into the evidence; they never change the verdict on /repo."""
+    import subprocess
+    from pathlib import Path
+
+    here = Path(__file__).resolve().parent.parent
+    try:
+        pr = subprocess.run([str(here / "selftest" / "run.py"), pid], capture_output=True, text=True, timeout=1200)
+    except Exception as e:  # noqa: BLE001
+        return {"error": str(e)[:200]}
+    line = [l for l in pr.stdout.splitlines() if l.startswith("SELFTEST")]
+    out = {"exit": pr.returncode}
+    if line:
+        try:
+            out["summary"] = json.loads(line[-1].split(" ", 1)[1].rsplit(" total", 1)[0])
+            out["total"] = int(line[-1].rsplit("total", 1)[1])
+        except Exception:  # noqa: BLE001
+            out["raw"] = line[-1][:200]
+    problems = [l for l in pr.stdout.splitlines() if l.startswith(("MISSED", "FALSE-ALARM", "ERROR", "STALE"))]
+    if problems:
+        out["problems"] = problems[:20]
+    return out
 
 
 def main(argv=None) -> int:
